@@ -5,7 +5,7 @@ TRUSTED = ("Trusted base: TLC 1.8 and the CommunityModules Json/IOUtils override
            "run-time tracer (vh/tdsdrv.py: ranks of floats, booleans computed on floats); Python drives and records only. ")
 
 ENGINES = [
-    {"name": "tdsloop", "path": "spec/TDSLoop.tla spec/TDSLaws.tla spec/Trace_TDSLoop.tla spec/MC_TDSLoop*.cfg spec/Scen_*.tla vh/tdsdrv.py vh/tdsfam.py",
+    {"name": "tdsloop", "path": "spec/TDSLoop.tla spec/TDSLaws.tla spec/Trace_TDSLoop.tla spec/MC_TDSLoop*.cfg spec/Scen_*.tla spec/Trace_TimeSeries.tla vh/tdsdrv.py vh/tdsfam.py vh/tsdrv.py",
      "serves_properties": ["C04", "C06", "C14", "C15", "C17"],
      "kind_free_text": "explicit TLA+ model of the TDS time-stepping loop, exhaustively checked by TLC; scenarios enumerated by TLC are "
                        "replayed into the real code under a run-time tracer and the recorded traces are validated by TLC"},
@@ -64,8 +64,11 @@ CHECKS = {
                   "schedules into the real code + TLC trace validation with exact float ranks",
         text="The faithful model of the loop (one action per call site) is checked for ExactlyOnce / NoStepCrossesSwitch / "
              "StoredIncreasing / SuccessIffAtTf over all schedules within the constants; the same schedule space (plus Fault / "
-             "Alter / refresh_event spaces, seeded float schedules and stock cases) is run on the real code and every recorded "
-             "trace is validated by TLC with the property formulas evaluated at every step.",
+             "Alter / refresh_event spaces, seeded float schedules, schedules beyond 10 s and stock cases) is run on the real code and "
+             "every recorded trace is validated by TLC with the property formulas evaluated at every step; time-series updates: "
+             "TLC-enumerated sets of stamps (at t0, on and off the grid, 1 ms apart, at a segment boundary, at and beyond tf, beyond "
+             "10 s) x step size x segmentation are run with a data file and TLC checks that each row takes effect exactly at its stamp, "
+             "on the addressed device only, with a step ending at the stamp.",
         note=TRUSTED + "Newton outcomes are abstracted to classes in the model; 1 model unit = 1e-5 s on replay; quick tier replays a "
                        "seeded sample of the TLC-enumerated space (thorough: up to 12000)."),
     "C10": dict(
